@@ -550,6 +550,25 @@ func init() {
 	regc(&CombDef{Name: "ZipAll", Min: 2, Max: 3, Build: func(e *Env, s []ro.Observable[int]) ro.Observable[int] {
 		return ro.Map(sl2i)(ro.ZipAll[int]()(obsOfObs(s)))
 	}})
+	// the fixed-arity forms are separate implementations in the library (ZipWith3..5, CombineLatestWith3..4)
+	regc(&CombDef{Name: "Zip4", Min: 4, Max: 4, Build: func(e *Env, s []ro.Observable[int]) ro.Observable[int] {
+		return ro.Map(func(t lo.Tuple4[int, int, int, int]) int { return sl2i([]int{t.A, t.B, t.C, t.D}) })(ro.Zip4(s[0], s[1], s[2], s[3]))
+	}})
+	regc(&CombDef{Name: "Zip5", Min: 5, Max: 5, Build: func(e *Env, s []ro.Observable[int]) ro.Observable[int] {
+		return ro.Map(func(t lo.Tuple5[int, int, int, int, int]) int { return sl2i([]int{t.A, t.B, t.C, t.D, t.E}) })(ro.Zip5(s[0], s[1], s[2], s[3], s[4]))
+	}})
+	regc(&CombDef{Name: "Zip6", Min: 6, Max: 6, Build: func(e *Env, s []ro.Observable[int]) ro.Observable[int] {
+		return ro.Map(func(t lo.Tuple6[int, int, int, int, int, int]) int { return sl2i([]int{t.A, t.B, t.C, t.D, t.E, t.F}) })(ro.Zip6(s[0], s[1], s[2], s[3], s[4], s[5]))
+	}})
+	regc(&CombDef{Name: "CombineLatest4", Min: 4, Max: 4, Build: func(e *Env, s []ro.Observable[int]) ro.Observable[int] {
+		return ro.Map(func(t lo.Tuple4[int, int, int, int]) int { return sl2i([]int{t.A, t.B, t.C, t.D}) })(ro.CombineLatest4(s[0], s[1], s[2], s[3]))
+	}})
+	regc(&CombDef{Name: "CombineLatest5", Min: 5, Max: 5, Build: func(e *Env, s []ro.Observable[int]) ro.Observable[int] {
+		return ro.Map(func(t lo.Tuple5[int, int, int, int, int]) int { return sl2i([]int{t.A, t.B, t.C, t.D, t.E}) })(ro.CombineLatest5(s[0], s[1], s[2], s[3], s[4]))
+	}})
+	regc(&CombDef{Name: "MergeWith3", Min: 4, Max: 4, Build: func(e *Env, s []ro.Observable[int]) ro.Observable[int] { return ro.MergeWith3(s[1], s[2], s[3])(s[0]) }})
+	regc(&CombDef{Name: "RaceWith", Min: 2, Max: 3, Build: func(e *Env, s []ro.Observable[int]) ro.Observable[int] { return ro.RaceWith(s[1:]...)(s[0]) }})
+	regc(&CombDef{Name: "ConcatWith", Min: 2, Max: 3, Flags: Flags{Waits: true}, Build: func(e *Env, s []ro.Observable[int]) ro.Observable[int] { return ro.ConcatWith(s[1:]...)(s[0]) }})
 	regc(&CombDef{Name: "TakeUntil", Min: 2, Max: 2, Build: func(e *Env, s []ro.Observable[int]) ro.Observable[int] { return ro.TakeUntil[int](s[1])(s[0]) }})
 	regc(&CombDef{Name: "SkipUntil", Min: 2, Max: 2, Build: func(e *Env, s []ro.Observable[int]) ro.Observable[int] { return ro.SkipUntil[int](s[1])(s[0]) }})
 	regc(&CombDef{Name: "BufferWhen", Min: 2, Max: 2, Build: func(e *Env, s []ro.Observable[int]) ro.Observable[int] {
